@@ -521,11 +521,12 @@ def report(prop, spec, tier, runs, findings, kf, t0, extra, status_extra):
             printed.add(f['id'])
     # functions that failed only because of known site findings count as not discharged -> report honestly
     viol_lines = []
-    os.makedirs(os.path.join(VERIF, 'replays', prop), exist_ok=True)
+    RPD = os.environ.get('OQ3_REPLAY_DIR', os.path.join(VERIF, 'replays'))
+    os.makedirs(os.path.join(RPD, prop), exist_ok=True)
     for rec in violations:
         name = obligation_name(rec)
         fn = re.sub(r'[^\w.\-#]+', '_', name) + '.json'
-        path = os.path.join(VERIF, 'replays', prop, fn)
+        path = os.path.join(RPD, prop, fn)
         replay = dict(property=prop, obligation=name, kind=rec['kind'], unit=rec['unit'], function=rec['function'],
                       repo_file=rec['repo_file'], repo_line=rec['repo_line'], failing_expression=rec['site_text'],
                       contract_clause=rec['clause'], tags=rec['tags'], verifier='verus', verifier_message=rec['message'],
@@ -582,9 +583,10 @@ def report(prop, spec, tier, runs, findings, kf, t0, extra, status_extra):
         # nothing was decided (undecided run): say so instead of claiming a proof
         ev['level'] = 'other'
         ev['coverage']['explanation'] = 'UNDECIDED run: no obligation was discharged. ' + ' | '.join(u.split('\n')[0][:300] for u in undecided)
-    os.makedirs(os.path.join(VERIF, 'evidence'), exist_ok=True)
+    EVD = os.environ.get('OQ3_EVIDENCE_DIR', os.path.join(VERIF, 'evidence'))
+    os.makedirs(EVD, exist_ok=True)
     if status != 2 or not os.environ.get('OQ3_NO_EVIDENCE_ON_UNDECIDED'):
-        with open(os.path.join(VERIF, 'evidence', prop + '.json'), 'w') as f:
+        with open(os.path.join(EVD, prop + '.json'), 'w') as f:
             json.dump(ev, f, indent=1)
     for r in undecided:
         print('UNDECIDED: ' + r.split('\n')[0][:400])
